@@ -42,7 +42,7 @@ def outcome_key(o):
 def run(tier):
     ck = common.Check("C19", tier)
     ck.rule = ("inputs: valid inputs of all families + inputs breaking 2..8 rules at once; each expanded 9x in one process (8 on fresh threads) and in 3 more "
-               "processes with different environments, on both back-ends. distinct_nontrivial = distinct inputs whose outcome has >=2 diagnostics or whose "
+               "processes with different environments (locale, time zone, and every cargo / rustc variable a proc-macro process sees, set to crate names, profile names and flags), on both back-ends. distinct_nontrivial = distinct inputs whose outcome has >=2 diagnostics or whose "
                "expansion has >=2 impls (single-message / single-impl inputs cannot be reordered and count as trivial).")
     g = xgen.G(common.rng_for("C19", tier))
     g.allow_unknown_p = 0.06
@@ -51,9 +51,13 @@ def run(tier):
     # interleave: what an expansion leaves behind (process- or thread-wide state) must not reach the next one, whatever the next one is
     g.r.shuffle(items)
     srcs = [it.render() for it in items]
-    envs = [None, {"LANG": "tr_TR.UTF-8", "TZ": "Asia/Kathmandu", "O2O_RANDOM_VAR": str(g.r.random())},
-            {"LC_ALL": "C", "TZ": "UTC", "HOME": "/nonexistent", "RUST_BACKTRACE": "0"},
-            {"LANG": "ja_JP.UTF-8", "COLUMNS": "7", "RUST_LOG": "trace"}]
+    # what cargo / rustc export to a proc-macro's process, set to the values a crate-name / profile test would compare with
+    cargo_names = ["CARGO_CRATE_NAME", "CARGO_PKG_NAME", "CARGO_BIN_NAME", "CARGO_PRIMARY_PACKAGE", "CARGO_MANIFEST_DIR", "CARGO_PKG_VERSION", "CARGO_PKG_VERSION_MAJOR", "OUT_DIR", "PROFILE",
+                   "DEBUG", "OPT_LEVEL", "TARGET", "HOST", "RUSTFLAGS", "CARGO_ENCODED_RUSTFLAGS", "CARGO_FEATURE_SYN", "CARGO_FEATURE_SYN1", "CARGO_FEATURE_SYN2", "CARGO_FEATURE_STD",
+                   "CARGO_CFG_TEST", "CARGO_CFG_DEBUG_ASSERTIONS", "RUSTC_BOOTSTRAP", "RUST_MIN_STACK", "CARGO", "RUSTC", "RUSTDOC", "DOCS_RS", "CI", "O2O_DEBUG", "O2O"]
+    envs = [None, dict({"LANG": "tr_TR.UTF-8", "TZ": "Asia/Kathmandu", "O2O_RANDOM_VAR": str(g.r.random())}, **{n_: "o2o" for n_ in cargo_names}),
+            dict({"LC_ALL": "C", "TZ": "UTC", "HOME": "/nonexistent", "RUST_BACKTRACE": "0"}, **{n_: "1" for n_ in cargo_names}),
+            dict({"LANG": "ja_JP.UTF-8", "COLUMNS": "7", "RUST_LOG": "trace"}, **{n_: v_ for n_, v_ in zip(cargo_names, ["o2o_impl", "o2o-macros", "release", "true", "debug", "test", "0", "o2o_tests"] * 4)})]
     for backend in ("s1", "s2"):
         base = common.run_x(srcs, backend, reps=8)
         others = [common.run_x(srcs, backend, reps=0, env_extra=e, nproc=(5 + 3 * i)) for i, e in enumerate(envs[1:])]
